@@ -18,7 +18,8 @@ def main():
     vf.build("hooks")
     c.model("Abi.tla", "AbiSmall.cfg" if c.thorough else "AbiSmallQuick.cfg")
     abidiff = vf.tool("hooks", "abidiff")
-    cases = campaign.gen_pairs(c, 1200 if c.thorough else 120, MutCats='{"breaking", "harmless", "unlisted"}', MinMuts=0, MaxMuts=3)
+    cases = campaign.gen_pairs(c, 1200 if c.thorough else 90, MutCats='{"breaking", "harmless", "unlisted"}', MinMuts=0, MaxMuts=3)
+    cases += campaign.gen_pairs(c, 600 if c.thorough else 40, name="gencxx", Lang='"cxx"', MutCats='{"breaking", "harmless", "unlisted"}', MinMuts=0, MaxMuts=3)
     subsets = [list(s) for k in range(1, len(PRES) + 1) for s in itertools.combinations(PRES, k)
                if not ({"--show-bytes", "--show-bits"} <= set(s) or {"--show-hex", "--show-dec"} <= set(s))]
 
